@@ -153,7 +153,15 @@ var Entries = []Entry{
 		return &s3c.Req{Method: "PUT", Path: path(b, k, sp), Header: []s3c.KV{{K: "x-amz-copy-source", V: fx.src(sp.Src)}}}
 	}},
 	{Name: "GetObjectTagging", Method: "GET", Level: "object", Action: "s3:GetObjectTagging", Perm: "READ", build: simple("GET", q("tagging", ""), nil, "")},
-	{Name: "PutObjectTagging", Method: "PUT", Level: "object", Mutates: true, Action: "s3:PutObjectTagging", Perm: "WRITE", build: simple("PUT", q("tagging", ""), nil, taggingXML)},
+	{Name: "PutObjectTagging", Method: "PUT", Level: "object", Mutates: true, Action: "s3:PutObjectTagging", Perm: "WRITE", build: func(fx *Fixture, b, k string, sp Spec) *s3c.Req {
+		// (a spec with a copy source - meaningless here - stands for the other shape of this call: an empty tag set,
+		// which takes the tags of the object away)
+		body := taggingXML
+		if sp.Src != "" {
+			body = `<Tagging><TagSet></TagSet></Tagging>`
+		}
+		return &s3c.Req{Method: "PUT", Path: path(b, k, sp), Query: q("tagging", ""), Body: []byte(body)}
+	}},
 	{Name: "DeleteObjectTagging", Method: "DELETE", Level: "object", Mutates: true, Action: "s3:DeleteObjectTagging", Perm: "WRITE", build: simple("DELETE", q("tagging", ""), nil, "")},
 	{Name: "GetObjectAcl", Method: "GET", Level: "object", Action: "s3:GetObjectAcl", Perm: "READ_ACP", build: simple("GET", q("acl", ""), nil, "")},
 	{Name: "PutObjectAcl", Method: "PUT", Level: "object", Mutates: true, Action: "s3:PutObjectAcl", Perm: "WRITE_ACP", build: simple("PUT", q("acl", ""), []s3c.KV{{K: "x-amz-acl", V: "public-read"}}, "")},
